@@ -106,7 +106,9 @@ Inductive label :=
 | CleanupBegin | CleanupOk | CleanupFail
 | IsDone (t : task) (o : outcome)   (* observation only: t is done with o *)
 | Cancelled (t : task)              (* observation only: a cancellation of t has been requested *)
-| StartupHandler (h : nat) (r : hres).   (* startup handler h invoked in some round of run_activity, ending with r *)
+| StartupHandler (h : nat) (r : hres)    (* startup handler h invoked in some round of run_activity, ending with r *)
+| Signal.                  (* environment: SIGINT/SIGTERM -> signal_flag.set_result: the stop-flag checker's asyncio.wait
+                              returns; unlike StopFlag the "stop-flag waiter" stays pending (a hung task later) *)
 
 (* ------------------------------------------------------------------ decidable equalities *)
 
@@ -535,6 +537,11 @@ Definition step (s : state) (l : label) : option state :=
       | AStartup, PRun => Some (match r with HPerm => set_act s AStartupBad | _ => s end)
       | AStartupBad, PRun => Some s
       | _, _ => None
+      end
+  | Signal =>
+      match ph s (TRoot RStopper) with
+      | PRun => Some (set_ph s (upd (ph s) (TRoot RStopper) (PEnding OOk)))
+      | _ => Some s            (* the checker is past its asyncio.wait (finishing, done, cancelled): nobody listens, no effect *)
       end
   end.
 
